@@ -654,6 +654,83 @@ fn overflow_checks_on() -> bool {
     .is_err()
 }
 
+// ---------------------------------------------------------------------------------------------
+// Which `core::ops` / comparison traits does each of the five types implement? Decided by the
+// compiler (inherent associated const shadows the blanket trait const), not by reading source text:
+// an operator implementation ADDED to ppv-null is a public operation outside the model and the runs.
+// ---------------------------------------------------------------------------------------------
+trait ProbeNo {
+    const YES: bool = false;
+}
+impl<T: ?Sized> ProbeNo for T {}
+macro_rules! probe_trait {
+    ($name:ident, $($bound:tt)+) => {
+        struct $name<T>(core::marker::PhantomData<T>);
+        impl<T: $($bound)+> $name<T> {
+            const YES: bool = true;
+        }
+    };
+}
+probe_trait!(PAdd, core::ops::Add);
+probe_trait!(PSub, core::ops::Sub);
+probe_trait!(PMul, core::ops::Mul);
+probe_trait!(PDiv, core::ops::Div);
+probe_trait!(PRem, core::ops::Rem);
+probe_trait!(PNeg, core::ops::Neg);
+probe_trait!(PNot, core::ops::Not);
+probe_trait!(PBitAnd, core::ops::BitAnd);
+probe_trait!(PBitOr, core::ops::BitOr);
+probe_trait!(PBitXor, core::ops::BitXor);
+probe_trait!(PShl, core::ops::Shl<u32>);
+probe_trait!(PShr, core::ops::Shr<u32>);
+probe_trait!(PAddAssign, core::ops::AddAssign);
+probe_trait!(PSubAssign, core::ops::SubAssign);
+probe_trait!(PMulAssign, core::ops::MulAssign);
+probe_trait!(PBitAndAssign, core::ops::BitAndAssign);
+probe_trait!(PBitOrAssign, core::ops::BitOrAssign);
+probe_trait!(PBitXorAssign, core::ops::BitXorAssign);
+probe_trait!(PShlAssign, core::ops::ShlAssign<u32>);
+probe_trait!(PShrAssign, core::ops::ShrAssign<u32>);
+probe_trait!(PIndex, core::ops::Index<usize>);
+probe_trait!(PPartialEq, PartialEq);
+probe_trait!(PPartialOrd, PartialOrd);
+probe_trait!(PDefault, Default);
+probe_trait!(PClone, Clone);
+probe_trait!(PCopy, Copy);
+probe_trait!(PHash, core::hash::Hash);
+probe_trait!(PRotWords, RotateWordsRight);
+probe_trait!(PSplatRot, SplatRotateRight);
+probe_trait!(PFromU128, From<u128>);
+probe_trait!(PIntoU128, Into<u128>);
+macro_rules! ops_of {
+    ($t:ty) => {{
+        let mut v: Vec<&'static str> = Vec::new();
+        macro_rules! one {
+            ($p:ident, $n:expr) => {
+                if <$p<$t>>::YES {
+                    v.push($n);
+                }
+            };
+        }
+        one!(PAdd, "Add"); one!(PSub, "Sub"); one!(PMul, "Mul"); one!(PDiv, "Div"); one!(PRem, "Rem"); one!(PNeg, "Neg");
+        one!(PNot, "Not"); one!(PBitAnd, "BitAnd"); one!(PBitOr, "BitOr"); one!(PBitXor, "BitXor"); one!(PShl, "Shl<u32>");
+        one!(PShr, "Shr<u32>"); one!(PAddAssign, "AddAssign"); one!(PSubAssign, "SubAssign"); one!(PMulAssign, "MulAssign");
+        one!(PBitAndAssign, "BitAndAssign"); one!(PBitOrAssign, "BitOrAssign"); one!(PBitXorAssign, "BitXorAssign");
+        one!(PShlAssign, "ShlAssign<u32>"); one!(PShrAssign, "ShrAssign<u32>"); one!(PIndex, "Index<usize>");
+        one!(PPartialEq, "PartialEq"); one!(PPartialOrd, "PartialOrd"); one!(PDefault, "Default"); one!(PClone, "Clone");
+        one!(PCopy, "Copy"); one!(PHash, "Hash"); one!(PRotWords, "RotateWordsRight"); one!(PSplatRot, "SplatRotateRight");
+        one!(PFromU128, "From<u128>"); one!(PIntoU128, "Into<u128>");
+        v
+    }};
+}
+fn implemented_traits_json() -> String {
+    let q = |v: Vec<&'static str>| -> String { format!("[{}]", v.iter().map(|s| format!("\"{}\"", s)).collect::<Vec<_>>().join(",")) };
+    format!(
+        "{{\"u32x4\":{},\"u64x4\":{},\"u128x1\":{},\"u128x2\":{},\"u32x4x4\":{}}}",
+        q(ops_of!(u32x4)), q(ops_of!(u64x4)), q(ops_of!(u128x1)), q(ops_of!(u128x2)), q(ops_of!(u32x4x4))
+    )
+}
+
 fn main() {
     let argv: Vec<String> = std::env::args().collect();
     if argv.len() < 2 || argv[1] != "c19" {
@@ -744,7 +821,7 @@ fn main() {
         format!("{{{}}}", xs.join(","))
     };
     println!(
-        "{{\"evaluations\":{},\"distinct_nontrivial\":{},\"profile\":{},\"overflow_checks\":{},\"debug_assertions\":{},\"methods_exercised\":{},\"clone_exercised_in\":\"ONew of all five types\",\"lane_index_classes\":\"0..n-1, n, n+1, 7, 256, 257, 2^32-1, and 2^32, 2^32+1, 2^63+2 (usize indices) / 2^16, 2^31 (u32 indices)\",\"panics_observed\":{},\"by_type\":{},\"by_op\":{},\"direct_failures\":[],\"samples\":[{}]}}",
+        "{{\"evaluations\":{},\"distinct_nontrivial\":{},\"profile\":{},\"overflow_checks\":{},\"debug_assertions\":{},\"methods_exercised\":{},\"clone_exercised_in\":\"ONew of all five types\",\"lane_index_classes\":\"0..n-1, n, n+1, 7, 256, 257, 2^32-1, and 2^32, 2^32+1, 2^63+2 (usize indices) / 2^16, 2^31 (u32 indices)\",\"panics_observed\":{},\"by_type\":{},\"by_op\":{},\"implemented_traits\":{},\"direct_failures\":[],\"samples\":[{}]}}",
         total,
         distinct.len(),
         jstr(prof),
@@ -754,6 +831,7 @@ fn main() {
         panics,
         m2s(&by_ty),
         m2s(&by_op),
+        implemented_traits_json(),
         samples.join(",")
     );
 }
